@@ -14,6 +14,7 @@ from .sym import (Sym, SCplx, CTX, is_conc, sym_if, And, Or, Not, Implies, to_in
 from .arr import (SArr, PyRaise, Unsupported, conc_int, getitem as arr_getitem,
                   setitem as arr_setitem, elementwise2, elementwise1, from_list, NEWAXIS)
 from .heap import ObjRef, SList, DictRef, RefHeap, Opaque
+from .rawfile import RawFileR, Chunk, CardStr, CardKey, HeaderVal, SymDict, Layout
 
 REPO = os.environ.get('VERIF_REPO', '/repo')
 
@@ -601,6 +602,7 @@ class Interp:
         else:
             env.func_key = getattr(clo, 'func_key', None) or clo.name
         env.loop_counter = [0]
+        env.loop_ids = _loop_ids(clo.node)
         if len(self.call_stack) > 60:
             raise Unsupported("call depth exceeded")
         self.call_stack.append(env.func_key)
@@ -710,6 +712,19 @@ class Interp:
             if v is not None and not callable(v):
                 return v
             return LibRef(p)
+        if isinstance(obj, RawFileR):
+            if name == 'read':
+                return lambda interp, *a: obj.read(interp, *a)
+            if name == 'close':
+                return lambda interp: obj.close_ctx(interp)
+        if isinstance(obj, Chunk) and name == 'decode':
+            return lambda interp, *a: obj.decode(interp, *a)
+        if isinstance(obj, tuple) and len(obj) == 3 and obj[0] == 'cardslice' and name == 'strip':
+            return lambda interp, *a: (CardKey(obj[2].layout, obj[2].idx) if obj[1] == 'key' else HeaderVal(obj[2].layout, idx=obj[2].idx))
+        if isinstance(obj, HeaderVal) and name in ('strip', 'lstrip', 'rstrip'):
+            return lambda interp, *a: obj
+        if isinstance(obj, SymDict) and name == 'get':
+            return lambda interp, key, default=None: obj.get(interp, key, default)
         if isinstance(obj, SStr):
             from . import lib as _l
             if name == 'encode' or name == 'decode':
@@ -850,6 +865,8 @@ class Interp:
         raise Unsupported(f"raise of {v!r}")
 
     def st_Try(self, s, env):
+        # engine-level control exceptions (PathEnd: the symbolic path stops here; Unsupported) are not program
+        # exceptions: no handler and no finally block of the interpreted program runs for them
         try:
             try:
                 self.exec_block(s.body, env)
@@ -871,7 +888,13 @@ class Interp:
                     raise
             else:
                 self.exec_block(s.orelse, env)
-        finally:
+        except (PathEnd, Unsupported, SymbolicBranch):
+            raise
+        except BaseException:
+            if s.finalbody:
+                self.exec_block(s.finalbody, env)
+            raise
+        else:
             if s.finalbody:
                 self.exec_block(s.finalbody, env)
 
@@ -894,11 +917,19 @@ class Interp:
                 self.assign(item.optional_vars, m, env)
         try:
             self.exec_block(s.body, env)
-        finally:
-            for m in reversed(mgrs):
-                close = getattr(m, 'close_ctx', None)
-                if close is not None:
-                    close(self)
+        except (PathEnd, Unsupported, SymbolicBranch):
+            raise
+        except BaseException:
+            self._exit_with(mgrs)
+            raise
+        else:
+            self._exit_with(mgrs)
+
+    def _exit_with(self, mgrs):
+        for m in reversed(mgrs):
+            close = getattr(m, 'close_ctx', None)
+            if close is not None:
+                close(self)
 
     def st_FunctionDef(self, s, env):
         clo = Closure(s, [env.vars] + env.chain, env.module, name=s.name)
@@ -909,7 +940,7 @@ class Interp:
         raise Unsupported("global statement")
 
     def st_For(self, s, env):
-        ordinal = env.next_loop()
+        ordinal = env.next_loop(s)
         it = self.eval(s.iter, env)
         spec = self.loop_specs.get((getattr(env, 'func_key', None), ordinal))
         if spec is not None and not isinstance(it, (list, tuple)):
@@ -931,7 +962,7 @@ class Interp:
             self.exec_block(s.orelse, env)
 
     def st_While(self, s, env):
-        ordinal = env.next_loop()
+        ordinal = env.next_loop(s)
         spec = self.loop_specs.get((getattr(env, 'func_key', None), ordinal))
         if spec is not None:
             return self.while_with_invariant(s, env, spec, ordinal)
@@ -995,9 +1026,9 @@ class Interp:
         self.vc.assume(k >= 0)
         spec.havoc(self, env, k, 'pres')
         self.vc.assume(spec.inv(self, env, k))
+        var0 = spec.variant(self, env) if getattr(spec, 'variant', None) else None     # before the test (it may have effects)
         c = self.truth(self.eval(s.test, env))
         self.vc.assume(c)
-        var0 = spec.variant(self, env) if getattr(spec, 'variant', None) else None
         try:
             self.exec_block(s.body, env)
         except _Continue:
@@ -1010,7 +1041,7 @@ class Interp:
         self.vc.ensure(f"{name}/inv-pres", spec.inv(self, env, k + 1), kind='inv-pres')
         if var0 is not None:
             var1 = spec.variant(self, env)
-            self.vc.ensure(f"{name}/variant", And(var1 < var0, var0 >= 0), kind='variant')
+            self.vc.ensure(f"{name}/variant", And(var1 < var0, var0 >= 0), kind='variant')     # decreases per iteration, bounded below
         raise PathEnd()
 
     def concrete_iter(self, it):
@@ -1115,6 +1146,14 @@ class Interp:
         return self.eval(node, env)
 
     def getitem(self, obj, key):
+        if isinstance(obj, SymDict):
+            return obj.getitem(self, key)
+        if isinstance(obj, CardStr):
+            if isinstance(key, slice) and key.start is None and conc_int(key.stop) == 8 and key.step is None:
+                return ('cardslice', 'key', obj)
+            if isinstance(key, slice) and conc_int(key.start) == 9 and key.stop is None and key.step is None:
+                return ('cardslice', 'val', obj)
+            raise Unsupported("slice of a header card other than [:8] / [9:]")
         if isinstance(obj, (SList, DictRef)):
             return obj.getitem(self, key if not isinstance(obj, DictRef) else self.dict_key(key))
         if isinstance(obj, SArr):
@@ -1184,6 +1223,8 @@ class Interp:
         return conv(key)
 
     def setitem(self, obj, key, value):
+        if isinstance(obj, SymDict):
+            return obj.setitem(self, key, value)
         if isinstance(obj, (SList, DictRef)):
             return obj.setitem(self, key if not isinstance(obj, DictRef) else self.dict_key(key), value)
         if isinstance(obj, SArr):
@@ -1510,7 +1551,7 @@ class Interp:
             if v.ndim == 0:
                 return to_bool(v.at(()))
             raise Unsupported("truth value of an array")
-        if isinstance(v, (LazySeq, SList)):
+        if isinstance(v, (LazySeq, SList, Chunk, SymDict)):
             return to_bool(Sym.lift(v.length)) if not is_conc(v.length) else v.length > 0
         if isinstance(v, ObjRef):
             return True
@@ -1572,6 +1613,8 @@ class Env:
         g = interp.module_globals(self.module)
         if name in g:
             return g[name]
+        if name == '__file__':
+            return self.module.path
         b = BUILTINS.get(name, _MISSING)
         if b is not _MISSING:
             return b
@@ -1583,7 +1626,11 @@ class Env:
     def delete(self, name):
         del self.vars[name]
 
-    def next_loop(self):
+    def next_loop(self, node=None):
+        """Ordinal of a loop = its position in source order within the function (static, independent of unrolling)."""
+        ids = getattr(self, 'loop_ids', None)
+        if ids is not None and node is not None and id(node) in ids:
+            return ids[id(node)]
         i = self.loop_counter[0]
         self.loop_counter[0] += 1
         return i
@@ -1750,6 +1797,29 @@ def subst_value(v, ksym, j, memo):
         memo[id(v)] = r
         return r
     return v
+
+
+_LOOP_IDS = {}
+
+
+def _loop_ids(fnode):
+    key = id(fnode)
+    hit = _LOOP_IDS.get(key)
+    if hit is not None and hit[0] is fnode:
+        return hit[1]
+    out = {}
+
+    def visit(n):
+        for ch in ast.iter_child_nodes(n):
+            if isinstance(ch, (ast.FunctionDef, ast.Lambda, ast.ClassDef)):
+                continue
+            if isinstance(ch, (ast.For, ast.While)):
+                out[id(ch)] = len(out)
+            visit(ch)
+    if not isinstance(fnode, ast.Lambda):
+        visit(fnode)
+    _LOOP_IDS[key] = (fnode, out)
+    return out
 
 
 def _is_generator(node):
